@@ -756,22 +756,38 @@ class Executor:
 
     # ---- element-wise array expressions (Tier 2): arrays as lambda terms
     def amap(self, st, f, operands, et_out, node, spec=False):
+        """element-wise map with NumPy broadcasting (trailing dimensions aligned; a dimension that is literally 1 is stretched)"""
         refs = [o for o in operands if isinstance(o, VRef)]
-        a0 = st.heap[refs[0].cell]
-        nd = a0.ndim
-        for r in refs[1:]:
-            a = st.heap[r.cell]
-            if a.ndim != nd:
-                raise Unsupported("broadcasting between different ranks", node)
-            if not spec:
-                same = z3.And(*[x == y for x, y in zip(a.shape, a0.shape)])
-                self.oblige(st, "shape", self.line_tag(node), same, node, desc="operands have the same shape")
+        datas = [st.heap[r.cell] for r in refs]
+        nd = max(d.ndim for d in datas)
+
+        def lit1(t):
+            ts = z3.simplify(t)
+            return z3.is_int_value(ts) and ts.as_long() == 1
+        # result shape
+        shape = []
+        for k in range(nd):
+            cands = []
+            for d in datas:
+                off = nd - d.ndim
+                if k >= off:
+                    cands.append(d.shape[k - off])
+            non1 = [c for c in cands if not lit1(c)]
+            if not non1:
+                shape.append(z3.IntVal(1))
+            else:
+                shape.append(non1[0])
+                for c in non1[1:]:
+                    if not spec and not z3.eq(c, non1[0]):
+                        self.oblige(st, "shape", self.line_tag(node), c == non1[0], node, desc="operands broadcast to the same shape")
         idx = [z3.Int(fresh_name("l")) for _ in range(nd)]
         elems = []
         for o in operands:
             if isinstance(o, VRef):
                 a = st.heap[o.cell]
-                elems.append(self.wrap_elem(a, a.select(idx)))
+                off = nd - a.ndim
+                sub = [z3.IntVal(0) if lit1(a.shape[k]) else idx[k + off] for k in range(a.ndim)]
+                elems.append(self.wrap_elem(a, a.select(sub)))
             else:
                 elems.append(o)
         self.suppress += 1          # element-level exceptions do not occur in NumPy array arithmetic
@@ -779,18 +795,20 @@ class Executor:
             body = f(*elems)
         finally:
             self.suppress -= 1
-        tmp = ArrData(None, a0.shape, et_out)
+        tmp = ArrData(None, shape, et_out)
         t = self.unwrap_elem(tmp, body, node)
         for k in reversed(range(nd)):
             t = z3.Lambda([idx[k]], t)
         cell = new_cell("amap")
-        st.heap[cell] = ArrData(t, a0.shape, et_out, frozenset(), True)
+        st.heap[cell] = ArrData(t, shape, et_out, frozenset(), True)
         return VRef(cell)
 
     def array_arith(self, op, a, b, st, node, spec):
         def f(x, y):
             if isinstance(op, ast.Div):
                 return VFloat(xr.div(to_float(x), to_float(y)))      # NumPy: IEEE, no exception
+            if isinstance(op, ast.Pow) and isinstance(x, VFloat):
+                return self.arith(op, x, y, st, node, True)
             return self.arith(op, x, y, st, node, True)
         ets = [st.heap[v.cell].et for v in (a, b) if isinstance(v, VRef)]
         scal = [v for v in (a, b) if not isinstance(v, VRef)]
@@ -890,7 +908,7 @@ class Executor:
         if isinstance(base, VRef):
             a = st.heap[base.cell]
             idx_nodes = sl.elts if isinstance(sl, ast.Tuple) else [sl]
-            if any(isinstance(e, ast.Slice) for e in idx_nodes):
+            if any(isinstance(e, ast.Slice) or (isinstance(e, ast.Constant) and e.value is None) for e in idx_nodes):
                 return self.slice_read(base, a, idx_nodes, st, n, spec)
             idx_vals = [self.ev(e, st, spec) for e in idx_nodes]
             if len(idx_vals) == 1 and isinstance(idx_vals[0], VTuple):
@@ -912,12 +930,20 @@ class Executor:
     def slice_read(self, base, a, idx_nodes, st, n, spec):
         """basic slices a[lo:hi, ...] (step 1) and integer indices: a view as a lambda array.
         Obligation: 0 <= lo <= hi <= dim (so Python's clamping never applies)."""
-        if len(idx_nodes) != a.ndim:
+        n_new = sum(1 for e in idx_nodes if isinstance(e, ast.Constant) and e.value is None)
+        if len(idx_nodes) - n_new != a.ndim:
             raise Unsupported("slice arity", n)
         bound = []
         index = []
         shape = []
-        for k, e in enumerate(idx_nodes):
+        k = -1
+        for e in idx_nodes:
+            if isinstance(e, ast.Constant) and e.value is None:
+                v = z3.Int("sl!%d" % len(bound))        # np.newaxis: a dimension of length 1
+                bound.append(v)
+                shape.append(z3.IntVal(1))
+                continue
+            k += 1
             dim = a.shape[k]
             if isinstance(e, ast.Slice):
                 if e.step is not None:
@@ -1443,6 +1469,18 @@ class Executor:
                     and isinstance(args[0], VRef) and len(args) == 1 and not kwargs:
                 self.notes.append("assumed: np.%s is a function of the array it is given" % fn)
                 return self.call_uf("np_" + fn, args, st, n)
+            if fn == "linspace" and len(args) == 3 and not kwargs and all(isinstance(a, VInt) for a in args):
+                a_, b_, n_ = [x.t for x in args]
+                if z3.is_true(z3.simplify(a_ + b_ == 0)) and z3.is_true(z3.simplify(n_ == 2 * b_ + 1)):
+                    # assumed NumPy contract (DESIGN 3): np.linspace(-h, h, 2h+1)[i] == -h + i for integer h >= 0
+                    if not spec:
+                        self.raise_if(st, n_ < 0, "ValueError", n)
+                    i = z3.Int("ls!0")
+                    cell = new_cell("linspace")
+                    st.heap[cell] = ArrData(z3.Lambda([i], xr.from_int(a_ + i)), [n_], "f", frozenset(), True)
+                    self.notes.append("assumed: np.linspace(-h, h, 2h+1)[i] == -h + i")
+                    return VRef(cell)
+                raise Unsupported("np.linspace in a form without an assumed contract", n)
             if fn == "gradient" and isinstance(args[0], VRef) and len(args) == 1 and not kwargs:
                 return self.np_gradient(args[0], st, n, spec)
             if fn in ("isnan",) and not isinstance(args[0], VRef):
